@@ -8,6 +8,14 @@
 
 int verif_exc;
 
+size_t g_zb_arg, g_zb_ret, g_z_len, g_z_out, g_chunk_size; const void* g_z_src; const void* g_chunk_data; int g_z_ret, g_chunk_calls;
+void h_png_idat(void) {
+  const Image* self; void* image_data; size_t in_image_size;
+  g_chunk_calls = 0; g_zb_arg = 0; g_zb_ret = 0; verif_exc = 0;
+  Image_save_png_idat(self, image_data, in_image_size);
+  VERIF_REACH();
+}
+
 void h_png_scanlines(void) {
   uint8_t in_x, in_y, in_c, in_w, in_h; /* narrow, see ppm_load.c */
   uint8_t in_v;
